@@ -4,7 +4,7 @@ import LyModel.Lyb.TreeLemmasE
 namespace LyModel.LybTree
 open LyModel LyModel.Lyb LyModel.Tree LyModel.Generated LyModel.Generated.LybTree
 
-theorem doc_rt (P : Params) (hP : P.Ok) (o : POpts) (S : LSchema) (hwd : ∀ w, S.wd = some w → unpackRev (packRev w) = w)
+theorem doc_rt (P : Params) (hP : P.Ok) (o : POpts) (S : LSchema) (hann : AnnotsOk S)
     (hname : S.modName ≠ []) (hrev : unpackRev (packRev S.rev) = S.rev) (t : List DNode) (hwf : WfForest S t)
     (img : Bytes) (hp : printLyb P o S t = some img) (fuel : Nat) (hf : costL t + 1 ≤ fuel) :
     parseLybF P S fuel img = some (t.map (viewNode o S)) := by
@@ -57,7 +57,7 @@ theorem doc_rt (P : Params) (hP : P.Ok) (o : POpts) (S : LSchema) (hwd : ∀ w, 
         obtain ⟨r3, e3, a3⟩ := rdNum_at P hP 0 P_MODCOUNT 1 (by decide) _ r2 a2
         obtain ⟨r4, e4, a4⟩ := model_at P hP 0 S.modName S.rev true u2 hu2 hname _ r3 a3
         have a5 := at_start P hP 0 _ r4 a4
-        obtain ⟨r6, e6, a6⟩ := sibs_none P hP o S hwd hname hrev (n :: rest) none x4 _ 0 (rstart P r4) hx4 hwf a5 fuel []
+        obtain ⟨r6, e6, a6⟩ := sibs_none P hP o S hann hname hrev (n :: rest) none x4 _ 0 (rstart P r4) hx4 hwf a5 fuel []
           (by omega)
         obtain ⟨r7, e7, _⟩ := at_stop P 0 _ r6 a6
         have hmm : modMatches S.modName (unpackRev (packRev S.rev)) S.modName S.rev = true := by
